@@ -36,6 +36,13 @@ def run(tier):
             if cfg == "MC_Rolling_fixed.cfg":
                 cases = r.payloads.get("CASE", [])
             log(f"[c17] {cfg}: {r.distinct} states, violation={r.violation}")
+        if tier == "thorough":
+            # true 64-bit magnitudes (beyond TLC's integers): the lazy-modulo registers never reach 2^64 between normalisations
+            obligations = [("Init", "IndInv", 0), ("IndInit", "IndInv", 1), ("IndInit", "NoOverflow", 0)]
+            res = [vlib.apalache("FastBound", i, v, n) for (i, v, n) in obligations]
+            ev.extra["apalache_fastbound"] = {"obligations": [f"{i} => {v} (length {n})" for (i, v, n) in obligations], "discharged": res}
+            if not all(res):
+                vd.nonconformance(f"Apalache: inductive bound for the lazy-modulo accumulator not established: {res}")
         r0 = tlc("Rolling", "MC_Rolling_orig.cfg", workers=4, timeout=600, want_payload=False)
         ev.extra["orig_variant_violation_found"] = r0.violation
         if not r0.violation:
